@@ -18,13 +18,26 @@ K5b == {<<34>>, <<17, 34>>, <<51, 34>>, <<17, 50>>, <<19, 34>>}
 K6 == {<<>>, <<34>>, <<17, 34>>, <<51, 34>>, <<17, 50>>, <<19, 34>>}
 K7 == {<<>>, <<34>>, <<17, 34>>, <<51, 34>>, <<17, 50>>, <<19, 34>>, <<17, 85>>}
 
-\* the key universe, for the harness (final audit reads every key)
-ASSUME PrintT("@@KEYS " \o ToJson(Keys))
+\* keys that are never written: same length as stored ones but differing in a single nibble (inside / outside
+\* the part an extension covers), shorter, longer.  Reading them must find nothing in every reachable state.
+\*   0x1125 [5,2,1,1,16]  0x1152 [2,5,1,1,16]  0x1123 [3,2,1,1,16]  0x2122 [2,2,1,2,16]  0x11 [1,1,16]  0x02 [2,0,16]
+\*   0x111122 [2,2,1,1,1,1,16]  0x221122 [2,2,1,1,2,2,16]  0x1222 [2,2,2,1,16]
+AbsentProbes == {<<17, 37>>, <<17, 82>>, <<17, 35>>, <<33, 34>>, <<17>>, <<2>>, <<17, 17, 34>>, <<34, 17, 34>>, <<18, 34>>} \ Keys
+Inv_C01_Probes == \A k \in AbsentProbes : (IF root = Absent THEN 0 ELSE TryGet(root, KeyBytesToHex(k)).v) = 0
+\* the keys the harness reads in its final audit: the universe and the never-written probes
+ASSUME PrintT("@@KEYS " \o ToJson(Keys \cup AbsentProbes))
 \* keys that take every value (the others only the smallest): bounds the overwrite dimension
 RichAll == Keys
 Rich1 == {<<17, 34>>}
 GenNext  == Len(hist) < Depth /\ Next
 GenSpec  == Init /\ [][GenNext]_vars
-EmitEdge == PrintT("@@B " \o ToJson(hist'))
-EmitFull == (Len(hist') = Depth) => PrintT("@@B " \o ToJson(hist'))
+\* every exported behaviour ends with an "Audit" record: what the harness must find when it inspects the trie
+\* after the last step (number of dirty hashes = nodes the next Commit writes, number of nodes of the trie)
+AuditRec(r, ml, m, rs) ==
+    [a |-> "Audit", in |-> [x |-> 0],
+     out |-> [dirty |-> Cardinality(DirtyHashesOf(r, ml)), nodes |-> NodeCount(Expand(r))],
+     st |-> [m |-> MapPairs(m), nroots |-> Cardinality(rs)]]
+Export == PrintT("@@B " \o ToJson(Append(hist', AuditRec(root', maxLevel', map', roots'))))
+EmitEdge == Export
+EmitFull == (Len(hist') = Depth) => Export
 ====
